@@ -21,6 +21,7 @@ case "$MODE" in
   both) run_tier thorough; run_tier quick ;;
   *) run_tier quick ;;
 esac
+case "$MODE" in thorough|both) python3 tools/thorough_summary.py > /dev/null ;; esac
 python3 tools/mkmanifest.py > /dev/null && python3 tools/seed_table.py > /dev/null
 echo "regen done rc=$rc"
 exit $rc
